@@ -84,7 +84,11 @@ func (e *watchEng) Gen(r *Rand, thorough bool, idx int) Case {
 		n = 120
 	}
 
-	c := Case{Header: fmt.Sprintf("# engine=watch flavour=inmem nsaware=0 initcap=%d maxcap=%d gap=%d case=%d", initcap, maxcap, gap, idx)}
+	// every other case runs over a backing store which rejects the writes marked bsfail=1: they must fail, change
+	// nothing and publish nothing
+	bs := idx % 2
+
+	c := Case{Header: fmt.Sprintf("# engine=watch flavour=inmem nsaware=0 initcap=%d maxcap=%d gap=%d bs=%d case=%d", initcap, maxcap, gap, bs, idx)}
 	sh := map[string]*wshadow{}
 	types := []string{"T1", "T1", "T1", "T2"}
 	ids := []string{"a", "b", "c"}
@@ -113,6 +117,15 @@ func (e *watchEng) Gen(r *Rand, thorough bool, idx int) Case {
 			}
 
 			switch {
+			case bs == 1 && r.Chance(1, 8): // a write the backing store rejects
+				switch {
+				case !s.exists:
+					c.Ops = append(c.Ops, fmt.Sprintf("create t=%d ns=n1 typ=%s id=%s ver=undefined owner= phase=running fins= labels=%s c=0 u=0 spec=s%d as= bsfail=1", t, typ, id, lab, r.Intn(3)))
+				case r.Chance(1, 3):
+					c.Ops = append(c.Ops, fmt.Sprintf("destroy t=%d ns=n1 typ=%s id=%s as= bsfail=1", t, typ, id))
+				default:
+					c.Ops = append(c.Ops, fmt.Sprintf("update t=%d ns=n1 typ=%s id=%s ver=%d owner= phase=running fins=%s labels=%s c=0 u=0 spec=s%d as= exp=any bsfail=1", t, typ, id, s.ver, s.fins, lab, r.Intn(3)))
+				}
 			case !s.exists:
 				c.Ops = append(c.Ops, fmt.Sprintf("create t=%d ns=n1 typ=%s id=%s ver=undefined owner= phase=running fins= labels=%s c=0 u=0 spec=s%d as=", t, typ, id, lab, r.Intn(3)))
 				s.exists, s.ver, s.fins = true, 1, ""
@@ -394,6 +407,29 @@ func watchStartErr(err error) string {
 	return "err class=other"
 }
 
+// watchBackingStore accepts every write except while `fail` is set.
+type watchBackingStore struct{ fail bool }
+
+var errWatchBacking = fmt.Errorf("backing store rejected the write")
+
+func (s *watchBackingStore) Put(context.Context, resource.Type, resource.Resource) error {
+	if s.fail {
+		return errWatchBacking
+	}
+
+	return nil
+}
+
+func (s *watchBackingStore) Destroy(context.Context, resource.Type, resource.Pointer) error {
+	if s.fail {
+		return errWatchBacking
+	}
+
+	return nil
+}
+
+func (s *watchBackingStore) Load(context.Context, inmem.LoadHandler) error { return nil }
+
 func (e *watchEng) Exec(t *testing.T, c Case) []string {
 	_, h := ParseLine(strings.TrimPrefix(c.Header, "#"))
 	out := make([]string, 0, len(c.Ops))
@@ -403,11 +439,18 @@ func (e *watchEng) Exec(t *testing.T, c Case) []string {
 		ctx, cancel := context.WithCancel(context.Background())
 		defer cancel()
 
-		var st state.CoreState = inmem.NewStateWithOptions(
+		stOpts := []inmem.StateOption{
 			inmem.WithHistoryInitialCapacity(h.Int("initcap")),
 			inmem.WithHistoryMaxCapacity(h.Int("maxcap")),
 			inmem.WithHistoryGap(h.Int("gap")),
-		)("n1")
+		}
+
+		wbs := &watchBackingStore{}
+		if h["bs"] == "1" {
+			stOpts = append(stOpts, inmem.WithBackingStore(wbs))
+		}
+
+		var st state.CoreState = inmem.NewStateWithOptions(stOpts...)("n1")
 
 		watches := map[string]*liveWatch{}
 
@@ -449,6 +492,9 @@ func (e *watchEng) Exec(t *testing.T, c Case) []string {
 
 					return "ok"
 				default:
+					wbs.fail = a["bsfail"] == "1"
+					defer func() { wbs.fail = false }()
+
 					return ExecStoreOp(ctx, st, line)
 				}
 			}()
